@@ -7,5 +7,5 @@ CONSTANTS
   Hash <- HashDef
   Want <- WantDef
   KeepSched = FALSE
-INVARIANTS OneCompile Monotone TableOK Findable MutexOK
+INVARIANTS ServedOwn OneCompile Monotone TableOK Findable MutexOK
 PROPERTIES SnapshotsImmutable Terminates
